@@ -314,6 +314,14 @@ impl MultiReceiver {
     }
 }
 
+#[cfg(feature = "verif")]
+impl MultiReceiver {
+    /// Memory related counters of every session (verification hook)
+    pub fn verif_stats(&self) -> Vec<crate::verif::ReceiverStats> {
+        self.alc_receiver.values().map(|r| r.verif_stats()).collect()
+    }
+}
+
 impl Drop for MultiReceiver {
     fn drop(&mut self) {
         for endpoint in self.alc_receiver.keys() {
